@@ -291,7 +291,7 @@ class Schema(dict, metaclass=LogicalMeta):
             return self.__dict__[field.attname]
 
         if callable(getter):
-            context = self.__parser__.make_context(force_error=True)
+            context = self.__options__.make_context(force_error=True)
             value = field.parse_output_value(getter(self), context=context)
             if unprovided(value):
                 raise AttributeError(
@@ -322,7 +322,7 @@ class Schema(dict, metaclass=LogicalMeta):
                 f"Attempt to set immutable attribute: [{repr(field.attname)}]"
             )
 
-        context = self.__parser__.make_context(force_error=True)
+        context = self.__options__.make_context(force_error=True)
         value = field.parse_value(value, context=context)
 
         before = None
@@ -401,7 +401,7 @@ class Schema(dict, metaclass=LogicalMeta):
                 raise exc.UpdateError(
                     f"{self.__class__}: Attempt to set excluded attribute: {repr(alias)}"
                 )
-            context = self.__parser__.make_context(force_error=True)
+            context = self.__options__.make_context(force_error=True)
             addition = self.__parser__.parse_addition(alias, value, context=context)
             if unprovided(addition):
                 # ignore addition
